@@ -493,6 +493,11 @@ def mk_bin(op, a, b):
         return a.scale(1 << b.c)
     if op in ("udiv", "sdiv") and b.is_const() and b.c == 1:
         return a
+    if op == "lshr" and b.is_const() and 0 < b.c < 64:
+        # (x >> a) >> b  ==  x >> (a + b)
+        ia = a.single_atom()
+        if ia is not None and ia[0] == "lshr" and isinstance(ia[2], Lin) and ia[2].is_const() and 0 < ia[2].c and ia[2].c + b.c < 64:
+            return mk_bin("lshr", ia[1], Lin(ia[2].c + b.c))
     if op in ("udiv", "lshr", "ashr", "sdiv") and b.is_const():
         d = b.c if op in ("udiv", "sdiv") else (1 << b.c)
         # exact when every coefficient and the constant are multiples of d  (x*d / d).  Only used for
